@@ -26,9 +26,13 @@ else:
     # scratch copy never disturbs the build for /repo.
     COQ = os.path.join(BUILD, 'alt_' + hashlib.sha1(os.path.realpath(REPO).encode()).hexdigest()[:10], 'coq')
     os.makedirs(COQ, exist_ok=True)
-    subprocess.run(['rsync', '-a', '--delete', '--exclude', 'Gen/*.v', '--exclude', 'Gen/*.vo', '--exclude', 'Gen/*.glob',
-                    '--exclude', 'Gen/.*.aux', '--exclude', '.Makefile.d', '--exclude', 'Makefile', '--exclude', 'Makefile.conf',
-                    os.path.join(VERIF, 'coq') + '/', COQ + '/'], check=True)
+    if not os.environ.get('VERIF_ALT_SYNCED'):
+        # once per check process (worker processes spawned later import this module again)
+        os.environ['VERIF_ALT_SYNCED'] = '1'
+        subprocess.run(['rsync', '-a', '--delete', '--exclude', 'Gen/*.v', '--exclude', 'Gen/*.vo', '--exclude', 'Gen/*.glob',
+                        '--exclude', 'Gen/.*.aux', '--exclude', '.Makefile.d', '--exclude', 'Makefile', '--exclude', 'Makefile.conf',
+                        '--exclude', '.lia.cache', '--exclude', '.nia.cache',
+                        os.path.join(VERIF, 'coq') + '/', COQ + '/'], check=True)
     EVID_ALT = True
 EVID = os.path.join(VERIF, 'evidence') if os.path.realpath(REPO) == '/repo' else os.path.join(
     BUILD, 'alt_' + hashlib.sha1(os.path.realpath(REPO).encode()).hexdigest()[:10], 'evidence')
